@@ -107,3 +107,103 @@ func VX_C04_table() {
 	}
 	vx.Reach("end")
 }
+
+// VX_C04_table_big: sizes at which size-dependent strategies start (the initial table has 64 slots from
+// 128 rows on and grows from there). Two groupings in a row over different keys; the groups handed out
+// by the first must still be what they were after the second (state recycled between calls), and both
+// must be partitions by key. All keys but one are concrete: the solver picks the key of one row.
+func VX_C04_table_big() {
+	n, m1, m2 := vx.ParamInt("n"), vx.ParamInt("m1"), vx.ParamInt("m2")
+	strict := vx.HasParam("strict")
+	mk := func(m int, symRow int) vxKeys {
+		keys := vxKeys{k: make([]int, n), h: make([]uint64, n)}
+		for r := 0; r < n; r++ {
+			keys.k[r] = (r * 7) % m
+			if r == symRow {
+				keys.k[r] = vx.IntN(0, m-1)
+			}
+			keys.h[r] = uint64(keys.k[r]) * 64 // every key starts in slot 0 of a 64-slot table: long chains
+		}
+		return keys
+	}
+	check := func(keys vxKeys, groups []index.Int, who string) {
+		group := make([]int, n)
+		for r := range group {
+			group[r] = -1
+		}
+		for gi, g := range groups {
+			last := -1
+			for _, id := range g {
+				vx.Check(int(id) < n && group[id] == -1, who+": row in exactly one group")
+				if int(id) >= n || group[id] != -1 {
+					return
+				}
+				group[id] = gi
+				vx.Check(int(id) > last, who+": group rows in frame order")
+				last = int(id)
+			}
+			vx.Check(len(g) > 0, who+": no empty group")
+			for _, id := range g {
+				vx.Check(keys.k[id] == keys.k[g[0]], who+": rows of a group share the key")
+			}
+		}
+		seen := map[int]int{}
+		for r := 0; r < n; r++ {
+			vx.Check(group[r] >= 0, who+": every row is in a group")
+		}
+		for gi, g := range groups {
+			k := vxConcKey(keys.k[g[0]], 64)
+			_, dup := seen[k]
+			vx.Check(!dup, who+": one group per key")
+			seen[k] = gi
+		}
+	}
+	ix := index.NewAscending(uint32(n))
+	k1, k2 := mk(m1, n/3), mk(m2, -1)
+	g1, _ := GroupBy(ix, []column.Comparable{k1})
+	snap := make([][]uint32, len(g1))
+	for gi, g := range g1 {
+		snap[gi] = append([]uint32{}, g...)
+	}
+	check(k1, g1, "first grouping")
+	if strict {
+		objs := make([]interface{}, len(g1))
+		for gi := range g1 {
+			objs[gi] = g1[gi]
+		}
+		vx.Freeze("groups", objs...)
+		vx.FreezeGlobals()
+	}
+	w0, s0 := vx.FrozenWrites(), vx.SharedWrites()
+	g2, _ := GroupBy(ix, []column.Comparable{k2})
+	d2 := Distinct(ix, []column.Comparable{k2})
+	w1, s1 := vx.FrozenWrites(), vx.SharedWrites()
+	if strict {
+		vx.Thaw()
+		vx.Check(w1 == w0, "monitor: no store into memory that existed before the call (GroupBy on 128+ rows)")
+		vx.Check(s1 == s0, "monitor: no mutation of package-level or other process-wide state (GroupBy on 128+ rows)")
+	}
+	check(k2, g2, "second grouping")
+	vx.Check(len(d2) == len(g2), "Distinct after GroupBy: one row per key")
+	vx.Check(len(g1) == len(snap), "earlier groups: same number")
+	for gi := range snap {
+		vx.Check(len(g1[gi]) == len(snap[gi]), "earlier groups keep their rows (length)")
+		if len(g1[gi]) != len(snap[gi]) {
+			return
+		}
+		for j := range snap[gi] {
+			vx.Check(g1[gi][j] == snap[gi][j], "earlier groups keep their rows")
+		}
+	}
+	vx.Reach("end")
+}
+
+func vxConcKey(v, hi int) int {
+	for c := 0; c < hi; c++ {
+		if v == c {
+			return c
+		}
+	}
+	vx.Assume(false)
+	return 0
+}
